@@ -32,6 +32,20 @@ from pytableaux.proof import Rule, Tableau
 from pytableaux.tools import timing
 
 LEVEL = 'proof'
+
+
+def _fix_hash_seed():
+    """The proof search of pytableaux depends on str hashing (e.g. CFOL 'Universal Predicate Syllogism' takes 9 or
+    21 steps depending on PYTHONHASHSEED), so a run is reproducible for a given VERIF_SEED only with a fixed
+    hash seed.  If none is set, restart the same command with PYTHONHASHSEED=0."""
+    import os
+    import sys
+    if os.environ.get('PYTHONHASHSEED') is None:
+        os.environ['PYTHONHASHSEED'] = '0'
+        sys.stdout.flush()
+        sys.stderr.flush()
+        os.execv(sys.executable, [sys.executable, '-m', 'harness.check', *sys.argv[1:]])
+
 SCALE = 2 ** 100          # abstract clock unit = 2^-100 ms (float limits are exact)
 FLAG = Tableau.Flag
 MASK = (FLAG.PREMATURE | FLAG.FINISHED | FLAG.TIMED_OUT | FLAG.TRUNK_BUILT |
@@ -602,6 +616,7 @@ def jsonable(case):
 
 
 def run(ctx: Ctx):
+    _fix_hash_seed()
     res = lean_phase(ctx, ['Ptx.Props.C17'])
     ctx.coverage['rule'] = ('distinct = distinct (options, clock mode, operation sequence, logic, argument) cases '
                             'executed on a real Tableau and compared call by call with the model')
@@ -709,6 +724,7 @@ def run(ctx: Ctx):
 
 
 def replay(data) -> int:
+    _fix_hash_seed()
     "re-run the recorded input against the implementation-side oracle only"
     rp = data.get('replay', {})
     if rp.get('kind') == 'biglimit':
